@@ -28,6 +28,11 @@ def register(reg, P):
         "max_pool_like": (lambda x: jnp.max(x, axis=(1, 2)), 1, 1),
         "mixed_rank": (lambda x, v: x * v, (SH, (5,)), 1),
         "identity": (lambda x: x, 1, 1),
+        # the flagged input itself is ALSO returned (un-flagged) next to a result of a unary chain: the
+        # boundary transpose then has a graph output hanging off it and must survive transpose folding
+        "passthrough_and_unary": (lambda x: (x, jax.nn.relu(x)), 1, 2),
+        "passthrough_and_chain": (lambda x: (x, jnp.tanh(jnp.abs(x)) * 1.0), 1, 2),
+        "unary_and_passthrough": (lambda x: (jnp.exp(x), x), 1, 2),
         "slice_hw": (lambda x: x[:, 1:, :2, :], 1, 1),
         "concat_c": (lambda x, y: jnp.concatenate([x, y], axis=3), 2, 1),
     }
@@ -51,7 +56,7 @@ def register(reg, P):
                     cfg["inputs_as_nchw"] = list(ins)
                 if outs:
                     cfg["outputs_as_nchw"] = list(outs)
-                tier = "quick" if (len(ins) <= 1 and len(outs) <= 1) or name in ("two_in_two_out", "add2") else "thorough"
+                tier = "quick" if (len(ins) <= 1 and len(outs) <= 1) or name in ("two_in_two_out", "add2", "passthrough_and_unary", "passthrough_and_chain", "unary_and_passthrough") else "thorough"
                 reg("A8", f"{name}/in{''.join(map(str, ins)) or '-'}/out{''.join(map(str, outs)) or '-'}", functools.partial(P, fn, specs, config=cfg), tier=tier)
     # symbolic spatial dims: lowering that needs the RUNTIME extent of H/W/C after the NCHW bridge
     def bc_mean(x):
